@@ -106,11 +106,12 @@ func goverifLex(s string) (toks []string, comments []string) {
 
 func goverifRelayouts(s string) []string {
 	// token-aware: only the gaps between tokens (comments and literals are tokens) are rewritten.
-	// a: every gap becomes one blank or one line break; b: gaps get tabs, blanks, extra blank lines.
+	// a: every gap becomes one blank or one line break; b: gaps get tabs, blanks, extra blank lines;
+	// c: line breaks are added - every token on its own line, a comment staying on the line of the token it follows.
 	src := []rune(s)
 	lexer := gen.NewPacketDslLexer(antlr.NewInputStream(s))
 	lexer.RemoveErrorListeners()
-	var a, b strings.Builder
+	var a, b, c strings.Builder
 	prev := 0
 	afterComment := false // blanks after a comment would become part of the comment token
 	gap := func(g string) {
@@ -129,16 +130,27 @@ func goverifRelayouts(s string) []string {
 		if t.GetTokenType() == antlr.TokenEOF || t.GetStart() < prev || t.GetStop() >= len(src) {
 			continue
 		}
-		gap(string(src[prev:t.GetStart()]))
+		g := string(src[prev:t.GetStart()])
+		gap(g)
+		// c: every token on a line of its own, except that a comment stays on the line of the token it follows
+		if prev > 0 || g != "" {
+			if t.GetTokenType() == gen.PacketDslLexerLINE_COMMENT && !strings.Contains(g, "\n") {
+				c.WriteString(" ")
+			} else if prev > 0 {
+				c.WriteString("\n")
+			}
+		}
 		a.WriteString(string(src[t.GetStart() : t.GetStop()+1]))
 		b.WriteString(string(src[t.GetStart() : t.GetStop()+1]))
+		c.WriteString(string(src[t.GetStart() : t.GetStop()+1]))
 		prev = t.GetStop() + 1
 		afterComment = t.GetTokenType() == gen.PacketDslLexerLINE_COMMENT
 	}
 	if prev < len(src) {
 		gap(string(src[prev:]))
 	}
-	return []string{a.String(), b.String()}
+	c.WriteString("\n")
+	return []string{a.String(), b.String(), c.String()}
 }
 
 func TestGoverifStandin(t *testing.T) {
